@@ -1,5 +1,6 @@
 import Cuke.Driver.EvCodec
 import Cuke.Model.Normalize
+import Cuke.Model.Contract
 import Cuke.Model.Monitors
 import Cuke.Props.C11
 /-! `norm.run <events>`: per-call outputs of the Normalize model, `!panic` where the code panics -/
@@ -25,6 +26,6 @@ def handleMonC11 : Toks → Option String :=
     let evs ← list evP
     let outs ← list (list evP)
     -- the hypotheses of the C11 theorems (SafeRun for T0/T1/T3/T4, StartsRun in addition for T2)
-    pure (Mon.monC11 contract (C11.SafeRun Norm.init evs && C11.StartsRun Norm.init evs) evs outs)) ts
+    pure (Mon.monC11 contract (C11.SafeRun Norm.init evs && C11.StartsRun Norm.init evs) (Contract evs) evs outs)) ts
 
 end Cuke.Driver
